@@ -201,6 +201,9 @@ def build(case):
             bi.address = None
     if case.get("safeseh"):
         A.pe_safe_exception_handlers.set(m, {B.blocks[i] for i in case["safeseh"]})
+    for name in case.get("empty_sections") or []:
+        # a section that holds no byte interval (it has no address)
+        gtirb.Section(name=name, flags={gtirb.Section.Flag.Readable}).module = m
     B.flat = flat
     return B
 
